@@ -313,6 +313,34 @@ impl AggregateUDFImpl for BitwiseOperation {
         }
     }
 
+    fn create_sliding_accumulator(
+        &self,
+        args: AccumulatorArgs,
+    ) -> Result<Box<dyn Accumulator>> {
+        if self.operation != BitwiseOperationType::Xor || args.is_distinct {
+            return self.accumulator(args);
+        }
+        // `bit_xor` supports `retract_batch`: use the accumulator that returns
+        // to NULL once every non-null value has left the window.
+        match args.return_field.data_type() {
+            DataType::Int8 => Ok(Box::<SlidingBitXorAccumulator<Int8Type>>::default()),
+            DataType::Int16 => Ok(Box::<SlidingBitXorAccumulator<Int16Type>>::default()),
+            DataType::Int32 => Ok(Box::<SlidingBitXorAccumulator<Int32Type>>::default()),
+            DataType::Int64 => Ok(Box::<SlidingBitXorAccumulator<Int64Type>>::default()),
+            DataType::UInt8 => Ok(Box::<SlidingBitXorAccumulator<UInt8Type>>::default()),
+            DataType::UInt16 => {
+                Ok(Box::<SlidingBitXorAccumulator<UInt16Type>>::default())
+            }
+            DataType::UInt32 => {
+                Ok(Box::<SlidingBitXorAccumulator<UInt32Type>>::default())
+            }
+            DataType::UInt64 => {
+                Ok(Box::<SlidingBitXorAccumulator<UInt64Type>>::default())
+            }
+            _ => self.accumulator(args),
+        }
+    }
+
     fn reverse_expr(&self) -> ReversedUDAF {
         ReversedUDAF::Identical
     }
@@ -459,6 +487,72 @@ where
 
     fn state(&mut self) -> Result<Vec<ScalarValue>> {
         Ok(vec![self.evaluate()?])
+    }
+
+    fn merge_batch(&mut self, states: &[ArrayRef]) -> Result<()> {
+        self.update_batch(states)
+    }
+}
+
+/// `bit_xor` accumulator for sliding windows: like [`BitXorAccumulator`], but
+/// it also counts the non-null values currently in the window, so that the
+/// result is NULL again (and not 0) once all of them have been retracted.
+struct SlidingBitXorAccumulator<T: ArrowNumericType> {
+    inner: BitXorAccumulator<T>,
+    /// Number of non-null values accumulated and not yet retracted
+    count: u64,
+}
+
+impl<T: ArrowNumericType> std::fmt::Debug for SlidingBitXorAccumulator<T> {
+    fn fmt(&self, f: &mut Formatter<'_>) -> std::fmt::Result {
+        write!(f, "SlidingBitXorAccumulator({})", T::DATA_TYPE)
+    }
+}
+
+impl<T: ArrowNumericType> Default for SlidingBitXorAccumulator<T> {
+    fn default() -> Self {
+        Self {
+            inner: BitXorAccumulator::default(),
+            count: 0,
+        }
+    }
+}
+
+impl<T: ArrowNumericType> Accumulator for SlidingBitXorAccumulator<T>
+where
+    T::Native: std::ops::BitXor<Output = T::Native>,
+{
+    fn update_batch(&mut self, values: &[ArrayRef]) -> Result<()> {
+        self.count += (values[0].len() - values[0].null_count()) as u64;
+        self.inner.update_batch(values)
+    }
+
+    fn retract_batch(&mut self, values: &[ArrayRef]) -> Result<()> {
+        let retracted = (values[0].len() - values[0].null_count()) as u64;
+        self.count = self.count.saturating_sub(retracted);
+        if self.count == 0 {
+            // No value is left in the window
+            self.inner.value = None;
+            Ok(())
+        } else {
+            self.inner.retract_batch(values)
+        }
+    }
+
+    fn supports_retract_batch(&self) -> bool {
+        true
+    }
+
+    fn evaluate(&mut self) -> Result<ScalarValue> {
+        self.inner.evaluate()
+    }
+
+    fn size(&self) -> usize {
+        size_of_val(self)
+    }
+
+    fn state(&mut self) -> Result<Vec<ScalarValue>> {
+        self.inner.state()
     }
 
     fn merge_batch(&mut self, states: &[ArrayRef]) -> Result<()> {
